@@ -10,4 +10,6 @@ CONSTANTS
   Modes = {"none", "nowait", "wait"}
   Modes2 = {"none"}
   NeverExits = {}
-PROPERTIES ResultEventually WaitReturns ShutdownReturns Termination
+\* only Termination here (it implies the other three given ResultConsistent; they are checked one by one in
+\* MC_Executor_live_1.cfg and MC_Executor_live_2.cfg): a single tableau keeps the quick tier short
+PROPERTIES Termination
